@@ -1,4 +1,5 @@
-(* Executable judge for C11 correspondence cases: one Go data value, several paths rendered against it. *)
+(* Executable judge for C11 correspondence cases: a history of Go data values rendered one after the other in
+   one process on one engine (often a single value), several paths rendered against each value. *)
 From PV Require Import Base.Bytes Base.Escape Run.Verdict.
 From PV Require Export Models.Convert.   (* case files name the constructors of gv / step *)
 
@@ -9,7 +10,7 @@ Record pobs := {
   po_out   : bytes;   (* output bytes when po_class = 0 *)
 }.
 
-Record case11 := { data : gv; paths : list pobs }.
+Record case11 := { data : gv; paths : list pobs }.    (* one value of the history *)
 
 (* the property itself on Go's own output, computed from S only: the leaf the path reaches in Go, printed;
    nothing when the path reaches nothing; never an error *)
@@ -49,12 +50,19 @@ Definition rank (v : nat) : nat :=
 
 Definition worse (a b : nat) : nat := if Nat.ltb (rank a) (rank b) then b else a.
 
-Definition judge (c : case11) : nat :=
+Definition judge_value (c : case11) : nat :=
   fold_left (fun acc po => worse acc (judge_path (data c) po)) (paths c) v_agree.
 
-(* diagnostics for replays: per path (model, spec text, in-domain, verdict) *)
-Definition explain (c : case11) :=
+(* a history is judged value by value: the spec of a value knows nothing of what was rendered before it
+   (Props/C11.v, C11_history), so whatever an earlier conversion leaves behind can only show as a violation
+   or drift on a later value *)
+Definition judge (h : list case11) : nat :=
+  fold_left (fun acc c => worse acc (judge_value c)) h v_agree.
+
+(* diagnostics for replays: per value, per path (model, spec text, in-domain, verdict) *)
+Definition explain_value (c : case11) :=
   map (fun po => (run (data c) (po_steps po) (po_raw po),
                   render (po_raw po) (leaf_text (go_path (data c) (po_steps po))),
                   dom_C11 (data c) (po_steps po) (po_raw po),
                   judge_path (data c) po)) (paths c).
+Definition explain (h : list case11) := map explain_value h.
